@@ -155,6 +155,16 @@ def gen(tier, seed, bdir):
                     kk["alg"] = ka
                 cases.append("sigalg\t%s\t%s" % ("-" if t is None else dumps(t), dumps(kk)))
                 dist["recording: signatures"] += 1
+    # one template object applied to SEVERAL keys whose inferred algorithms differ (the template must not leak
+    # the first key's choice into the next key's header, nor be modified)
+    mk = [k for k in usable_sig if "alg" not in k]
+    for t in ({"protected": {"typ": "JWT"}}, {"protected": {}}, {"header": {"kid": "k"}}, {}, {"protected": {"typ": "JWT"}, "header": {"x": 1}}):
+        for _ in range(12 if tier == "quick" else 80):
+            ks = [dict(rnd.choice(mk)) for _ in range(rnd.choice((2, 2, 3)))]
+            if rnd.random() < 0.3:
+                ks[-1]["alg"] = rnd.choice(["HS512", "HS256"])
+            cases.append("sigmulti\t%s\t%s" % (dumps(t), dumps(ks)))
+            dist["recording: one template, several keys"] += 1
     ceks = [{"kty": "oct", "k": b64(bytes(n))} for n in (16, 24, 32, 48, 64, 20)] + [{"kty": "oct"}, {}]
     jwes = [{}, {"protected": {}}, {"protected": {"enc": "A128GCM"}}, {"unprotected": {"enc": "A256GCM"}}, {"protected": {"enc": "A128CBC-HS256"}, "unprotected": {"enc": "A256GCM"}},
             {"protected": enc_hdr({"enc": "A128GCM"})}, {"unprotected": {}}, {"protected": {"zip": "DEF"}}, {"protected": {"enc": "nope"}}, {"protected": {"enc": 5}},
@@ -240,7 +250,25 @@ def oracle(case, out):
             return ("sigalg-changed", "a caller-supplied alg (%s) was replaced (%s)" % (supplied, merged))
         if merged is None:
             return ("sigalg-unrecorded", "a signature was prepared without any alg in the merged header")
+    if f[0] == "sigmulti":
+        # metamorphic: one template over several keys = each key signed on its own with (a copy of) the template,
+        # and the caller's template is not modified
+        t_in = json.loads(f[1])
+        parts = out.split("\t")
+        t_out = parts[-1]
+        if t_out.startswith("ERRT="):
+            t_out = t_out[3:]
+        if t_out.startswith("T=") and json.loads(t_out[2:]) != t_in:
+            return ("sigmulti-template-modified", "jose_jws_sig modified the caller's signature template (%s -> %s)" % (f[1], t_out[2:]))
+        if not out.startswith("ERR"):
+            keys = json.loads(f[2])
+            single = SINGLE.get((f[1], "\x00".join(dumps(k) for k in keys)))
+            if single is not None and single != parts[:-1]:
+                return ("sigmulti-alg-not-per-key", "with one template and several keys the recorded algorithms %s differ from those of signing with each key alone %s" % (parts[:-1], single))
     return None
+
+
+SINGLE = {}
 
 
 def klen(key):
@@ -298,7 +326,30 @@ def correspond(ctx):
                 continue
         kept.append(c)
     cases = kept
+    # reference for the sigmulti metamorphic relation: each key alone with the same template (implementation only)
+    import jwsgen as _G
+    singles, owners = [], []
+    for c in cases:
+        f = c.split("\t")
+        if f[0] == "sigmulti":
+            for k in json.loads(f[2]):
+                singles.append("sigalg\t%s\t%s" % (f[1], dumps(k)))
+            owners.append(f)
+    outs = _G.harness(ctx["bdir"], singles) if singles else []
+    it = iter(outs)
+    for f in owners:
+        keys = json.loads(f[2])
+        res = []
+        ok = True
+        for k in keys:
+            o = next(it)
+            if o == "ERR" or o.startswith("CRASH"):
+                ok = False
+            else:
+                res.append(o.replace("\tH=", " H="))
+        if ok:
+            SINGLE[(f[1], "\x00".join(dumps(k) for k in keys))] = res
     return runner.standard(
         ctx, cases, oracle, nontrivial,
-        rule="jose_jws_hdr/jose_jwe_hdr on every presence pattern of a name across the 2/3 headers in object, encoded, absent and malformed protected forms; the suggestion hooks on every key type/size/curve with and without declared alg and on passwords of length 0..41; the recording of chosen algorithms by jose_jws_sig_io, jose_jwe_enc_cek_io, jose_jwe_enc_jwk; non-trivial = a header/name was produced",
+        rule="jose_jws_hdr/jose_jwe_hdr on every presence pattern of a name across the 2/3 headers in object, encoded, absent and malformed protected forms; the suggestion hooks on every key type/size/curve with and without declared alg and on passwords of length 0..41; the recording of chosen algorithms by jose_jws_sig_io (one key, and one template applied to several keys with differing inferred algorithms), jose_jwe_enc_cek_io, jose_jwe_enc_jwk; non-trivial = a header/name was produced",
         dist=dist)
